@@ -17,7 +17,9 @@ type orC19 struct {
 	baseOracle
 	baseline   [2]int
 	haveBase   bool
-	wroteBy    map[string]bool // a mysync process wrote relaxed settings to the host (not restored since)
+	wroteBy    map[string]bool   // a mysync process wrote relaxed settings to the host (not restored since)
+	restoredBy map[string]string // host -> process whose restore was the last (nobody relaxed it since: see relaxedBy)
+	relaxedBy  map[string]string // host -> process that relaxed it after the last restore
 	everReg    map[string]bool
 	regAtEnter map[string]map[string]string // per incarnation: registry (host -> status) when its pass began
 	frozenIt   map[*iterRec]bool
@@ -149,6 +151,10 @@ func (o *orC19) onSQL(e *SQLEvent) {
 			}
 			if e.Effective && wroteRelaxed {
 				o.wroteBy[sv.Name] = true
+				if o.relaxedBy == nil {
+					o.relaxedBy = map[string]string{}
+				}
+				o.relaxedBy[sv.Name] = e.Src
 				m.probe("c19_relaxed_settings_written")
 			}
 		} else {
@@ -156,6 +162,13 @@ func (o *orC19) onSQL(e *SQLEvent) {
 				m.probe("c19_settings_restored")
 			}
 			o.wroteBy[sv.Name] = false
+			if e.toldOK() {
+				if o.restoredBy == nil {
+					o.restoredBy = map[string]string{}
+				}
+				o.restoredBy[sv.Name] = e.Src
+				delete(o.relaxedBy, sv.Name)
+			}
 		}
 	case e.Query == "SET GLOBAL read_only = 0" && e.Effective && e.Dst != m.master && m.isDaemon(e.Src):
 		// promotion
@@ -228,7 +241,13 @@ func (o *orC19) onZK(e *ZKEvent) {
 			return
 		}
 		if o.relaxed(sv) {
-			m.violate("C19", "dropped_unrestored", "host-dropped-from-registry-before-settings-restored", fmt.Sprintf("%s deleted optimization_nodes/%s while %s runs with innodb_flush_log_at_trx_commit=%d sync_binlog=%d (cluster level %v)", e.Inc, h, h, sv.FlushLog, sv.SyncBinlog, o.baseline))
+			sig := "host-dropped-from-registry-before-settings-restored"
+			if o.restoredBy[h] == e.Inc && o.relaxedBy[h] != "" && o.relaxedBy[h] != e.Inc {
+				// the process that drops the host did restore it first; another process (the manager's
+				// sync, for which the host was still registered) relaxed it again before the delete landed
+				sig = "restored-by-the-dropping-process-then-relaxed-again-by-another:before-the-delete-landed"
+			}
+			m.violate("C19", "dropped_unrestored", sig, fmt.Sprintf("%s deleted optimization_nodes/%s while %s runs with innodb_flush_log_at_trx_commit=%d sync_binlog=%d (cluster level %v)", e.Inc, h, h, sv.FlushLog, sv.SyncBinlog, o.baseline))
 		}
 	}
 }
